@@ -362,6 +362,9 @@ class ExprMixin(object):
       return [(st, NONE)]
     raise Unsupported('constant %r' % (c,))
 
+  def e_Yield(self, st, e):
+    return self.co_yield(st, e)
+
   def e_Name(self, st, e):
     return [(st, self.lookup(st, e.id, e))]
 
